@@ -290,6 +290,8 @@ class Engine:
         return None
     def on_return(self, st, fn, val):
         pass
+    def on_enter(self, st, inst, callee, args):
+        pass
 
     # ---- helpers --------------------------------------------------------------------------------------------
     def liveness(self, fn):
@@ -774,11 +776,12 @@ class Engine:
                     path.append(('i', '?'))
         return Ptr(base.base, tuple(path))
 
-    def cell_tracked(self, p):
+    def cell_tracked(self, st, p):
         if p.base.startswith('alloca:'):
             return True
-        if p.path and p.path[-1][0] == 'f' and p.path[-1][1] in self.tracked_fields:
-            return True
+        if p.path and p.path[-1][0] == 'f' and p.path[-1][1] in self.tracked_fields and p.base.startswith(self.PRIVATE_BASES) \
+                and all(x[0] == 'f' for x in p.path):
+            return True          # owner-only field of an object this thread owns (not reached through a loaded pointer)
         return False
 
     def exec_load(self, st, f, inst):
@@ -813,12 +816,18 @@ class Engine:
             sp = Ptr('ld:%s:%s' % (f.fn.name, inst.id), ())
             st.nn.discard(sp)
             regs[inst.id] = sp
+            if isinstance(p, Ptr):
+                self.on_ptr_load(st, f, inst, p, sp)
         else:
             regs[inst.id] = TOP
         return None
 
     def atomic_load_other(self, st, f, inst, p):
         return TOP
+
+    def on_ptr_load(self, st, f, inst, p, sp):
+        """a pointer was loaded from untracked memory at p and named sp"""
+        pass
 
     def kill_sym(self, st, sym):
         if sym not in st.S:
@@ -848,7 +857,7 @@ class Engine:
         wc, instance = self.word_of(p)
         if wc is not None:
             return self.word_store(st, f, inst, wc, instance, v)
-        if isinstance(p, Ptr) and self.cell_tracked(p) and inst.ord == 'na':
+        if isinstance(p, Ptr) and self.cell_tracked(st, p) and inst.ord == 'na':
             st.mem[p] = v
         self.on_store(st, f, inst, p, v)
         return None
@@ -1124,6 +1133,9 @@ class Engine:
         if h is None and target is not None and not target.decl and len(st.frames) < self.MAX_DEPTH and callee not in st.stack() \
                 and (self.inline_filter is None or self.inline_filter(callee)):
             # inline
+            self.record(Record('call', inst, st, callee=callee, args=args, entry=self.entry_name, inlined=True),
+                        ('call', inst.fn.name, inst.id, st.stack(), tuple(sorted(st.ghost.items(), key=repr)), self.rec_ctx(st)))
+            self.on_enter(st, inst, callee, args)
             lv = self.liveness(f.fn)
             keep = lv.live_after(inst)
             for k in list(f.regs):
@@ -1164,7 +1176,10 @@ class Engine:
                 f2.idx += 1
                 outs.append(s2)
             return outs
-        self.record(Record('call', inst, st, callee=callee, args=args, entry=self.entry_name), ('call', inst.fn.name, inst.id, st.stack(), tuple(sorted(st.ghost.items(), key=repr)), self.rec_ctx(st)))
+        for a in args:
+            if isinstance(a, Ptr):
+                self.note_access(st, inst, a, 'call-arg')
+        self.record(Record('call', inst, st, callee=callee, args=args, entry=self.entry_name, inlined=False), ('call', inst.fn.name, inst.id, st.stack(), tuple(sorted(st.ghost.items(), key=repr)), self.rec_ctx(st)))
         if callable(h):
             r = h(self, st, f, inst, args)
             if r is not None:
@@ -1181,6 +1196,13 @@ class Engine:
     def _framed(self, base, bases):
         """True if an object with this base cannot be named by a callee that was given only `bases`"""
         return base.startswith(self.PRIVATE_BASES) and base not in bases
+
+    CALLER_ONLY_GHOST = ()
+
+    def _ghost_framed(self, k, bases):
+        if isinstance(k, tuple) and len(k) == 3 and isinstance(k[2], Ptr) and self._framed(k[2].base, bases):
+            return True
+        return k in self.CALLER_ONLY_GHOST
 
     def memo_key(self, st, callee, args):
         """key for a function summary, or None when the call depends on symbolic word values of the caller.
@@ -1201,7 +1223,7 @@ class Engine:
             mem.append((k, v))
         gh = []
         for k, v in st.ghost.items():
-            if isinstance(k, tuple) and len(k) == 3 and isinstance(k[2], Ptr) and self._framed(k[2].base, bases):
+            if self._ghost_framed(k, bases):
                 continue
             if is_expr(v):
                 return None
@@ -1237,8 +1259,7 @@ class Engine:
                 bases.add(v.base)
         newmem = {k: v for k, v in st.mem.items() if self._framed(k.base, bases)}
         newmem.update(mem)
-        newgh = {k: v for k, v in st.ghost.items()
-                 if isinstance(k, tuple) and len(k) == 3 and isinstance(k[2], Ptr) and self._framed(k[2].base, bases)}
+        newgh = {k: v for k, v in st.ghost.items() if self._ghost_framed(k, bases)}
         newgh.update(gh)
         st.mem = newmem
         st.ghost = newgh
